@@ -19,7 +19,7 @@ RULE = (
     "Cases: Hypothesis histories - a rich roCreate, a prefix of 0-6 messages of any kind drawn against "
     "the state reached (round-tripped through text at drawn points), a roDelete with generic envelope "
     "content, then one message of EACH of the 24 merging kinds plus a second roDelete and a roCreate, "
-    "in a drawn order, each sent to the live object, to a round-tripped copy, and through strict and "
+    "in a drawn order, plus one message whose messageID is absent, blank or non-numeric, each sent to the live object, to a round-tripped copy, and through strict and "
     "non-strict MosCollection merges.  Oracle: before the roDelete `completed` is False (also after a "
     "round trip); after it `completed` is True, the roCreate subtree is canon-equal to before, the "
     "root has exactly one mosromgrmeta child holding an element canon-equal to the message's "
@@ -191,11 +191,20 @@ def cases(draw):
     root = ET.fromstring(ro_xml)
     root.find('messageID').text = str(mid)
     after.insert(draw(st.integers(0, len(after))), ET.tostring(root, encoding='unicode'))
+    # a message whose envelope lacks a usable messageID is still "any message"
+    k = draw(st.integers(0, len(after) - 1))
+    broken = ET.fromstring(after[k])
+    mid_el = broken.find('messageID')
+    if draw(st.booleans()):
+        broken.remove(mid_el)
+    else:
+        mid_el.text = draw(st.sampled_from([None, ' ', 'abc']))
+    odd = ET.tostring(broken, encoding='unicode')
     # the collection variant cannot hold a second roCreate/roDelete (C11)
     after_collection = [t for t in after
                         if type(MosFile.from_string(t)).__name__ not in ('RunningOrder', 'RunningOrderEnd')]
     n = len(prefix)
-    return {'ro_xml': ro_xml, 'prefix': prefix, 'delete': delete, 'after': after,
+    return {'ro_xml': ro_xml, 'prefix': prefix, 'delete': delete, 'after': after + [odd],
             'after_collection': after_collection[:draw(st.integers(1, 6))],
             'roundtrip_at': draw(st.lists(st.integers(0, max(0, n - 1)), max_size=2)) if n else []}
 
